@@ -770,6 +770,66 @@ fn enumerate_integers() -> (u64, Option<String>) {
     (n, None)
 }
 
+/// Sequence types at the lengths where the length prefix changes its width
+/// (and around the sizes decoders like to treat specially): generated values
+/// are short, so these are enumerated. Each is written followed by a sentinel
+/// and must come back unchanged with the cursor exactly behind it.
+fn enumerate_long_sequences() -> (u64, Option<String>) {
+    use std::{collections::{LinkedList, VecDeque}, rc::Rc, sync::Arc};
+    let plugin = Plugin::default();
+    let mut n = 0u64;
+    let lens: [usize; 14] = [
+        127, 128, 129, 1023, 1024, 1025, 16_383, 16_384, 16_385, 65_535, 65_536, 65_537, (1 << 21) - 1,
+        (1 << 21) + 1,
+    ];
+    macro_rules! seq {
+        ($t:ty, $mk:expr) => {{
+            for len in lens {
+                let v: $t = $mk(len);
+                let e = enc(&(v.clone(), 0x5a5a_u16), &plugin);
+                let (r, pos) = dec_at::<($t, u16)>(&e, &plugin);
+                n += 1;
+                match r {
+                    Ok((x, s)) if x == v && s == 0x5a5a && pos == e.len() as u64 => {}
+                    Ok((x, s)) => {
+                        return (
+                            n,
+                            Some(format!(
+                                "{} of length {len} followed by a u16: decoded length {}, sentinel {s:#x}, cursor {pos} of {}",
+                                stringify!($t),
+                                x.len(),
+                                e.len()
+                            )),
+                        );
+                    }
+                    Err(err) => {
+                        return (
+                            n,
+                            Some(format!("{} of length {len} followed by a u16: decode failed: {err}", stringify!($t))),
+                        );
+                    }
+                }
+            }
+        }};
+    }
+    let bytes = |len: usize| -> Vec<u8> { (0..len).map(|i| (i * 31 % 251) as u8).collect() };
+    seq!(Vec<u8>, |len| bytes(len));
+    seq!(Vec<u16>, |len: usize| (0..len).map(|i| (i * 7) as u16).collect::<Vec<u16>>());
+    seq!(Vec<()>, |len: usize| vec![(); len]);
+    seq!(VecDeque<u8>, |len| bytes(len).into_iter().collect::<VecDeque<u8>>());
+    seq!(LinkedList<u8>, |len: usize| bytes(len.min(70_000)).into_iter().collect::<LinkedList<u8>>());
+    seq!(Box<[u8]>, |len| bytes(len).into_boxed_slice());
+    seq!(Arc<[u8]>, |len| Arc::<[u8]>::from(bytes(len)));
+    seq!(Rc<[u8]>, |len| Rc::<[u8]>::from(bytes(len)));
+    seq!(String, |len: usize| "a".repeat(len));
+    seq!(Vec<String>, |len: usize| vec![String::from("x"); len.min(70_000)]);
+    seq!(std::collections::BTreeSet<u32>, |len: usize| (0..len.min(70_000) as u32).collect::<std::collections::BTreeSet<u32>>());
+    seq!(std::collections::BTreeMap<u32, u8>, |len: usize| (0..len.min(70_000) as u32).map(|i| (i, i as u8)).collect::<std::collections::BTreeMap<u32, u8>>());
+    seq!(std::collections::HashSet<u32>, |len: usize| (0..len.min(70_000) as u32).collect::<std::collections::HashSet<u32>>());
+    seq!(std::collections::HashMap<u32, u8>, |len: usize| (0..len.min(70_000) as u32).map(|i| (i, i as u8)).collect::<std::collections::HashMap<u32, u8>>());
+    (n, None)
+}
+
 fn check_c12(tier: Tier) -> Report {
     let prop = "C12";
     let seed = env_seed();
@@ -779,7 +839,7 @@ fn check_c12(tier: Tier) -> Report {
         tier.name(),
         seed,
         "exploration",
-        "compile-time type universe closed under the provided constructors (all leaves; every unary constructor over every leaf; binary constructors over leaf pairs; a fixed sample of depth-2/3 types; derived structs/enums incl. generic ones and skipped fields; with the 'extras' build also SmallVec and BitVec) x proptest-generated tapes decoded into boundary-biased values; per value: decode(encode(v)) == v, decoder cursor == bytes written (with a trailer), a ++ b ++ trailer reads back in sequence, no proper prefix decodes completely; plus exhaustive enumeration of all u8/i8/u16/i16 values and every 2^(7k)+{-1,0,1}, 2^(8k)+-1, MIN/MAX of the wider integers. non-trivial = a value whose encoding is longer than the type's smallest generated value or >= 3 bytes; distinct = (type, tape)",
+        "compile-time type universe closed under the provided constructors (all leaves; every unary constructor over every leaf; binary constructors over leaf pairs; a fixed sample of depth-2/3 types; derived structs/enums incl. generic ones and skipped fields; with the 'extras' build also SmallVec and BitVec) x proptest-generated tapes decoded into boundary-biased values; per value: decode(encode(v)) == v, decoder cursor == bytes written (with a trailer), a ++ b ++ trailer reads back in sequence, no proper prefix decodes completely; plus exhaustive enumeration of all u8/i8/u16/i16 values and every 2^(7k)+{-1,0,1}, 2^(8k)+-1, MIN/MAX of the wider integers, plus 14 sequence/map/string types at the lengths 127..129, 1023..1025, 16383..16385, 65535..65537, 2^21-1, 2^21+1 (each followed by a sentinel). non-trivial = a value whose encoding is longer than the type's smallest generated value or >= 3 bytes; distinct = (type, tape)",
     );
     ev.assumptions = vec![
         "semantic equality: NaNs are one value; unordered collections compare as sets/maps".into(),
@@ -795,6 +855,17 @@ fn check_c12(tier: Tier) -> Report {
         let path = write_replay(prop, &doc, &b);
         report.violations.push((path.display().to_string(), b));
         ev.violations += 1;
+    }
+    // only in the base variant (the extras build adds types, not lengths)
+    if std::env::var_os("VERIF_EVIDENCE_MERGE").is_none() {
+        let (m, bad) = enumerate_long_sequences();
+        ev.extra.insert("enumerated_long_sequences".into(), serde_json::json!(m));
+        if let Some(b) = bad {
+            let doc = serde_json::json!({"property": prop, "type": "long-sequence-enumeration", "message": b});
+            let path = write_replay(prop, &doc, &b);
+            report.violations.push((path.display().to_string(), b));
+            ev.violations += 1;
+        }
     }
     let cases = if tier == Tier::Thorough { 20_000 } else { 2000 };
     let tolerated = known_types(prop);
